@@ -106,8 +106,12 @@ def distinct_kinds(goodwe):
                 c = type(s).__name__
                 if c in ('Calculated', 'EnumCalculated'): continue
                 key = coq_kind(goodwe, s)
+                if key not in seen: ORIGIN[key] = [cls.__name__, nm, s.id_]
                 seen.setdefault(key, s)
     return seen
+
+
+ORIGIN = {}
 
 
 PRELUDE = """
@@ -195,14 +199,30 @@ def field_sweeps(ctx, st):
                 p = run_read(s, PR.ProtocolResponse(data, None))
                 if p != m:
                     found = True
-                    st.violation('sensor-mismatch', f'{key} ({label}) on bytes {data.hex()}: implementation {decode_show(p)}, model {decode_show(m)}',
-                                 dict(kind=key, data=data.hex(), implementation=p, model=m), no_input=True)
+                    origin = ORIGIN.get(key)
+                    rep = dict(kind=key, data=data.hex(), implementation=p, model=m, sensor_origin=origin)
+                    st.violation('sensor-mismatch', f'{key} ({label}) on bytes {data.hex()}: implementation {decode_show(p)}, model {decode_show(m)}', rep, no_input=True)
+                    # is this input a failing input of the property itself?  (the model's value is the documented decoding, proved total)
+                    cl = classify(ctx.prop, key, p, m)
+                    if cl:
+                        st.violation(cl[0], f'{type(s).__name__} {origin} on response bytes {data.hex()}: {cl[1]} (implementation {decode_show(p)}, documented decoding {decode_show(m)})', rep)
                     break
         if not found:
             st.violation('sensor-mismatch', f'{key} ({label}) values {lo}..{lo + 255}: hash differs', dict(kind=key, lo=lo), no_input=True)
     st.stats['kinds'] = len(kinds)
     st.stats['field_sweeps'] = len(cases)
     return kinds
+
+
+def classify(prop, key, p, m):
+    """a localised model/implementation disagreement as a violation of the property under check, or None"""
+    if prop == 'C11' and p and p[0] == 1 and p[1:] != [4]:
+        return ('decode-raises', 'decoding raises an exception that is not ValueError')
+    if prop == 'C12' and p and m and p[0] == 0 and m[0] == 0:
+        return ('value-not-the-documented-reading', "the reported value is not the documented reading of the sensor's own bytes")
+    if prop == 'C13' and p and m and p[0] == 0 and m[0] == 0 and key.startswith('(KEnum'):
+        return ('label-differs', 'the reported label is not the table entry / bit set of the raw value')
+    return None
 
 
 def decode_show(e):
